@@ -2,6 +2,7 @@
 from __future__ import annotations
 
 import ast
+import dataclasses
 import copy
 import json
 
@@ -235,7 +236,15 @@ def corr_recorder(ctx: Ctx):
 
 
 # ----------------------------------------------------------------------------- B: mutation schedules end to end
-HDR = "from inline_snapshot import snapshot\nimport copy\nfrom collections import namedtuple\nROW = namedtuple('ROW', 'k v')\nLOG = []\n\n"
+HDR = ("from inline_snapshot import snapshot\nimport copy\nfrom collections import namedtuple\nfrom dataclasses import dataclass\nROW = namedtuple('ROW', 'k v')\n\n\n"
+       "@dataclass(frozen=True, order=True)\nclass FZ:\n    k: int\n    v: object\n\n\nLOG = []\n\n")
+
+
+@dataclasses.dataclass(frozen=True, order=True)
+class FZ:
+    """the frozen dataclass of the schedules (a frozen dataclass is only shallowly immutable), for reading the generated code back"""
+    k: int
+    v: object
 
 
 def gen_value_src(rng, depth=0):
@@ -262,7 +271,7 @@ def gen_sched(rng, i):
         v = repr([rng.randint(0, 9) for _ in range(rng.randint(1, 4))])
         muts = rng.sample(["v.append(99)", "v.clear()", "v.reverse()", "v.extend([1, 2])", "v.insert(0, -1)", "(v.pop() if v else None)"], rng.randint(1, 3))
     # the compared value is the mutable list itself, or an immutable wrapper that holds it (a tuple is only shallowly immutable)
-    wrap = rng.choice(["", "", "({w},)", "(0, {w})", "ROW(0, {w})"]) if i % 2 else ""
+    wrap = rng.choice(["", "", "({w},)", "(0, {w})", "ROW(0, {w})", "FZ(0, {w})", "FZ(0, {w})"]) if i % 2 else ""
     body = [f"    v = {v}"]
     cmp_v = "v"
     if wrap:
@@ -293,7 +302,7 @@ def run_sched(s):
         tree = ast.parse(after)
         call = [n for n in ast.walk(tree) if isinstance(n, ast.Call) and isinstance(n.func, ast.Name) and n.func.id == "snapshot"][0]
         import collections
-        out["arg"] = eval(compile(ast.Expression(call.args[0]), "<a>", "eval"), {"ROW": collections.namedtuple("ROW", "k v")}) if call.args else None
+        out["arg"] = eval(compile(ast.Expression(call.args[0]), "<a>", "eval"), {"ROW": collections.namedtuple("ROW", "k v"), "FZ": FZ}) if call.args else None
         # the values at comparison time: execute the original test with snapshot := a recorder that accepts everything
         ns = {}
         plain = s["source"].replace("from inline_snapshot import snapshot\n", "class _Any:\n    def __eq__(s, o): return True\n    def __le__(s, o): return True\n    def __ge__(s, o): return True\n"
@@ -314,6 +323,8 @@ def _plain(x):
     """namedtuples as plain tuples (they compare equal; the classes of a scratch module cannot cross the process boundary)"""
     if isinstance(x, tuple):
         return tuple(_plain(y) for y in x)
+    if dataclasses.is_dataclass(x) and not isinstance(x, type):
+        return tuple(_plain(getattr(x, f.name)) for f in dataclasses.fields(x))
     if isinstance(x, list):
         return [_plain(y) for y in x]
     if isinstance(x, dict):
